@@ -14,19 +14,21 @@ RULE = ("one read request; the peer answers transmission 1 in two pieces: every 
         "second piece {0, T/2, 0.99T, 1.5T} x second piece {exact remainder, +1 byte, -1 byte, same length corrupted, "
         "full answer to another request, same-length remainder of another response, nothing (lone fragment)} x "
         "what answers transmission 2 {valid frame, remainder only} x {udp-rtu, udp-aa55, tcp} x keep-alive; payloads made of AA 55 pairs; the fragmented answer belonging to the retransmission that follows a late corrupted answer; a second caller entering while the first waits for its remainder; distinct = "
-        "distinct (framing, keep-alive, count, split point class, second-piece kind, delay, outcome, #tx) tuples")
+        "distinct (framing, keep-alive, count, split point class, second-piece kind (incl. a foreign datagram BETWEEN the fragment and its real remainder on the datagram framings), delay, outcome, #tx) tuples")
 ASSUMPTIONS = [
     "pieces sent for one transmission are tagged by the peer; a successful result is compared byte-wise with them",
     "clause (a) is asserted when the first piece holds the header (5 / 9 / 9 bytes) and the exact remainder arrives "
-    "before one timeout has passed since the transmission",
+    "before one timeout has passed since the transmission; when the first piece itself is late, 'within the timeout' for the "
+    "second piece is counted from the arrival of the first (the anchored mechanism: the timer is re-armed with the full "
+    "timeout when a fragment is stored)",
     "Modbus/TCP has no checksum: a same-length corrupted remainder may legitimately be accepted there (the property "
     "restricts clause (b) to the checksummed framings)",
 ]
 MUST = ["reassembled_while_another_caller_queued", "reassembled_after_corrupt_answer", "reassembled_rtu", "reassembled_tcp", "reassembled_aa55", "partial_branch", "leftover_cleared", "late_second_piece",
-        "wrong_second_piece_refused"]
+        "wrong_second_piece_refused", "foreign_datagram_between_fragments", "both_pieces_delayed"]
 EXHAUSTIVE = {"quick": False, "thorough": True}
 EPS = 1e-6
-KINDS = ["exact", "plus1", "minus1", "corrupt", "other_answer", "other_remainder", "none"]
+KINDS = ["exact", "plus1", "minus1", "corrupt", "other_answer", "other_remainder", "none", "plus1_then_exact", "junk_then_exact"]
 HEADER = {"rtu": 5, "tcp": 9, "aa55": 9}
 
 
@@ -64,10 +66,15 @@ class FragPeer(ScriptedPeer):
             kind = sc["kind"]
             second = {"exact": rest, "plus1": rest + b"\x00", "minus1": rest[:-1],
                       "corrupt": bytes([rest[0] ^ 0x01]) + rest[1:] if rest else b"",
-                      "other_answer": other, "other_remainder": other[k:], "none": None}[kind]
-            self.send(s, first, 0, n, 1)
+                      "other_answer": other, "other_remainder": other[k:], "none": None,
+                      "plus1_then_exact": rest + b"\x00",
+                      "junk_then_exact": b"\xde\xad\xbe\xef" if len(rest) != 4 else b"\xde\xad\xbe"}[kind]
+            d1 = sc.get("first_delay", 0.0)
+            self.send(s, first, d1, n, 1)
             if second is not None and len(second) > 0:
-                self.send(s, second, sc["delay"], n, 2)
+                self.send(s, second, d1 + sc["delay"], n, 2)
+            if kind.endswith("_then_exact") and rest:      # ... and then, still inside the timeout, the real remainder
+                self.send(s, rest, d1 + sc["delay"] + 0.2 * T, n, 3)
             return
         if n == 2 and sc.get("second_tx") == "remainder" and not pre:
             return self.send(s, self.v1[sc["split"]:], 0, n, 1)
@@ -131,6 +138,13 @@ def check_run(sc, run, part: Part):
                     not any(raw == p for ps in pieces.values() for p in ps):
                 out.append((f"C07/{f}/fragment-plus-foreign-data-accepted",
                             f"result starts with the first fragment but is not the unsplit frame: {raw.hex()[:80]}"))
+            elif sc["kind"].endswith("_then_exact") and raw == v1 and 0 < k < len(v1) and \
+                    not any(raw == p for ps in pieces.values() for p in ps):
+                out.append((f"C07/{f}/fragment-kept-across-foreign-data",
+                            f"first fragment ({k} bytes), then a datagram that is not its remainder, then the remainder: the result is "
+                            f"the frame glued from the first and the third datagram ({len(txs)} transmissions)"))
+            elif header_ok and sc["kind"].endswith("_then_exact"):
+                part.count("foreign_datagram_between_fragments")
             elif header_ok and sc["kind"] in ("plus1", "minus1", "corrupt", "other_remainder"):
                 part.count("wrong_second_piece_refused")
     # (a) exact remainder in time => success, one transmission, exactly the unsplit bytes
@@ -140,10 +154,13 @@ def check_run(sc, run, part: Part):
             got = rec["result"]["raw"][:60] if rec["outcome"] == "ok" else rec["outcome"]
             out.append((f"C07/{f}/exact-fragments-not-reassembled",
                         f"count={sc['count']} split={sc['split']} delay={sc['delay']} keep_alive={sc['keep_alive']} "
+                        f"{'(first piece ' + str(sc['first_delay']) + ' after the request, second ' + str(sc['delay']) + ' after the first) ' if sc.get('first_delay') else ''}"
                         f"{'(after a late corrupted answer to transmission 1) ' if sc.get('pre') else ''}: "
                         f"{len(txs)} transmissions, outcome {got}"))
         else:
             part.count("reassembled_" + f)
+            if sc.get("first_delay"):
+                part.count("both_pieces_delayed")
             if sc.get("pre"):
                 part.count("reassembled_after_corrupt_answer")
     if sc["kind"] == "exact" and sc["delay"] > T:
@@ -234,10 +251,18 @@ def run_shard(spec):
         splits = [k for k in splits if 0 < k < L]
         for k in splits:
             for kind in KINDS:
+                if kind.endswith("_then_exact") and f == "tcp":
+                    continue        # (a byte stream has no datagram boundaries: junk followed by the remainder is just a longer wrong piece)
                 for delay in ((0.0, 0.5, 0.99, 1.5) if kind in ("exact", "corrupt") else (0.0, 0.5)):
                     for second_tx in (("now", "remainder") if (kind == "none" or delay > 1) else ("now",)):
                         sc = scenario(f, spec["ka"], T, 2, count, k, kind, delay, second_tx, spec["aa55_len"])
                         run_case(sc, part)
+            if k in (HEADER[f], HEADER[f] + 2, L - 1) or k % 5 == 0:
+                # both pieces delayed: the wait for the second piece is counted from the arrival of the first
+                for d1, delay in ((0.6, 0.6), (0.9, 0.9), (0.3, 0.8)):
+                    sc = scenario(f, spec["ka"], T, 2, count, k, "exact", delay, "now", spec["aa55_len"])
+                    sc["first_delay"] = d1
+                    run_case(sc, part)
             if k % 2 == 1 or k in (HEADER[f], L - 2):
                 # payload made of AA 55 pairs: the remainder itself starts with the frame-header bytes
                 for delay in (0.0, 0.5):
